@@ -1,6 +1,7 @@
 (** Property C16 — the theorems the check counts as obligations.  Nothing but
     statements closed by [exact] and [Print Assumptions]. *)
-From HS Require Import Base.Prelude C16.Model C16.Lists C16.Policies C16.Store C16.Races C16.Seq C16.ModelTTL C16.SoftTTL C16.ModelMT C16.MT C16.ModelPC C16.PC C16.ModelWP.
+From HS Require Import Base.Prelude C16.Model C16.Lists C16.Policies C16.Store C16.Races C16.Seq C16.ModelTTL C16.SoftTTL C16.ModelMT C16.MT C16.ModelPC C16.PC C16.ModelWP
+  Base.PyLib Gen.EvictionGen C16.GenTie.
 Local Open Scope Z_scope.
 
 (** Every one of the nine eviction policies keeps a duplicate-free tracked-key
@@ -146,3 +147,27 @@ Theorem c16_writeback_policy_tracks : forall m ops k,
   In k (wdirty (wrun (WBack m) ops)) <-> pending_write k ops false = true.
 Proof. exact wb_tracks. Qed.
 Print Assumptions c16_writeback_policy_tracks.
+
+(* ---------------- code level: eviction_policies.py as regenerated by py2coq ---------------- *)
+
+(** LRUEviction (an OrderedDict used as an ordered set) and FIFOEviction (a list) of
+    components/datastore/eviction_policies.py, as REGENERATED from the source on every run
+    (Gen/EvictionGen.v): every method — on_access, on_insert, on_remove, evict, clear — acts on the
+    tracked keys exactly as the model policies [lru] / [fifo] (the policies the capacity / tracked-key
+    theorems above quantify over), returns what they return, and never raises.  For any object state
+    (the dict's values are never read). *)
+Theorem c16_code_lru_fifo_refine_model : forall (q : LRUEviction) (f : FIFOEviction) k now dr,
+  (dkeys (LRUEviction__order (fst (LRUEviction_on_access q k))) = C16.Model.p_access C16.Model.lru k (dkeys (LRUEviction__order q))
+   /\ dkeys (LRUEviction__order (fst (LRUEviction_on_insert q k))) = C16.Model.p_insert C16.Model.lru now k (dkeys (LRUEviction__order q))
+   /\ dkeys (LRUEviction__order (fst (LRUEviction_on_remove q k))) = C16.Model.p_remove C16.Model.lru k (dkeys (LRUEviction__order q))
+   /\ (exists q' r, LRUEviction_evict q = Some (q', r)
+         /\ (r, dkeys (LRUEviction__order q'), dr) = C16.Model.p_evict C16.Model.lru now dr (dkeys (LRUEviction__order q)))
+   /\ dkeys (LRUEviction__order (fst (LRUEviction_clear q))) = C16.Model.p_clear C16.Model.lru (dkeys (LRUEviction__order q)))
+  /\ (FIFOEviction__order (fst (FIFOEviction_on_access f k)) = C16.Model.p_access C16.Model.fifo k (FIFOEviction__order f)
+      /\ FIFOEviction__order (fst (FIFOEviction_on_insert f k)) = C16.Model.p_insert C16.Model.fifo now k (FIFOEviction__order f)
+      /\ FIFOEviction__order (fst (FIFOEviction_on_remove f k)) = C16.Model.p_remove C16.Model.fifo k (FIFOEviction__order f)
+      /\ (exists f' r, FIFOEviction_evict f = Some (f', r)
+            /\ (r, FIFOEviction__order f', dr) = C16.Model.p_evict C16.Model.fifo now dr (FIFOEviction__order f))
+      /\ FIFOEviction__order (fst (FIFOEviction_clear f)) = C16.Model.p_clear C16.Model.fifo (FIFOEviction__order f)).
+Proof. intros q f k now dr. exact (conj (tie_lru q k now dr) (tie_fifo f k now dr)). Qed.
+Print Assumptions c16_code_lru_fifo_refine_model.
